@@ -1,6 +1,7 @@
 import QProofs.C10
 import QGen.C10
 import Mathlib.Analysis.Normed.Module.Convex
+import Mathlib.Analysis.InnerProductSpace.Basic
 /-!
 # C10 — constrained estimators return physical, consistent estimates: property theorems
 
@@ -12,8 +13,10 @@ does not depend on them.
 
 Not proved here (honest gap, see `…_partial` names): that the loops terminate before the iteration limit and that the
 stopped iterate is ε-close to the constrained minimiser; that the implementation's projections map into the sets
-(that is C04/C05 — here it is the hypothesis `hproj`); exact-data optimality of the truth is proved for the identity-weight
-squared error of the driver only (`exact_data_minimiser`), not for weighted squared error or relative entropy.
+(that is C04/C05 — here it is the hypothesis `hproj`); that the Dykstra loop reaches a stationary state (at one, the result IS
+the nearest physical point: `dyk_stationary_is_nearest`, `dyk_zero_value_is_stationary`, `dyk_sum_invariant`).  Exact-data
+optimality of the truth is proved for every PSD-weighted squared error (`exact_data_minimiser`,
+`weighted_exact_data_minimiser`) and, in QProps/C11, for the relative entropy (`relative_entropy_exact_data_minimiser`).
 `selection_table`, `selection_keeps_installed`, `ple_eq_proj_of_lin` and the flag clauses of
 `lme_estimates_from_selected_projection` are the model's decision tables (true by unfolding); their content is the
 correspondence (`select`, `ple`, `lme` ops) and, for the first, `gen_selection_table`.  The `pgdb_*` theorems assume the line
@@ -384,6 +387,92 @@ theorem proj_physical_accuracy (projEq projIneq : V → V) (order : Order) (norm
       rw [← hx, ← hw]; exact this
 
 end dykstra
+
+/-! ### Dykstra: the invariant, and why a stationary sweep returns THE nearest physical point -/
+
+/-- C10.dyk_sum_invariant: every sweep, hence the whole loop, preserves `x + p + q` — for the call made by the estimators
+(`p = q = 0` initially) the returned state satisfies `x + p + q = x₀`. -/
+theorem dyk_sum_invariant {K V : Type} [AddCommGroup V] [Add K] [LT K] [DecidableLT K] (P1 P2 : V → V) (normSq : V → K) (eps : K) :
+    ∀ (fuel k : Nat) (s : DykState V),
+      (dykLoop P1 P2 normSq eps fuel k s).1.x + (dykLoop P1 P2 normSq eps fuel k s).1.p + (dykLoop P1 P2 normSq eps fuel k s).1.q
+        = s.x + s.p + s.q := by
+  have hsweep : ∀ s : DykState V, (dykSweep P1 P2 s).x + (dykSweep P1 P2 s).p + (dykSweep P1 P2 s).q = s.x + s.p + s.q := by
+    intro s; simp only [dykSweep]; abel
+  intro fuel
+  induction fuel with
+  | zero => intro k s; rfl
+  | succ fuel ih =>
+    intro k s
+    unfold dykLoop
+    simp only
+    split
+    · exact hsweep s
+    · cases fuel with
+      | zero => exact hsweep s
+      | succ f => exact (ih (k + 1) (dykSweep P1 P2 s)).trans (hsweep s)
+
+section nearest
+open scoped RealInnerProductSpace
+variable {E : Type} [NormedAddCommGroup E] [InnerProductSpace ℝ E]
+
+/-- C10.dyk_stationary_is_nearest: "the projected linear estimate is precisely the physical projection of the linear estimate", at
+a stationary state of the iteration.  If the two elementary projections are the metric projections onto `A` and `B` (variational
+inequality), the state satisfies the invariant `x + p + q = x₀` and a sweep leaves `x`, `p`, `q` unchanged, then `x ∈ A ∩ B` and
+`⟪x₀ − x, z − x⟫ ≤ 0` for every `z ∈ A ∩ B`: `x` is the nearest point of the physical set to `x₀`, for either projection order.
+(That the loop reaches a stationary state — Boyle–Dykstra convergence — is not proved; the distance of the stopped iterate from
+the stationary one is measured by the oracle's independent reference.) -/
+theorem dyk_stationary_is_nearest {A B : Set E} (P1 P2 : E → E)
+    (h1 : ∀ z, P1 z ∈ A ∧ ∀ w ∈ A, ⟪z - P1 z, w - P1 z⟫ ≤ 0) (h2 : ∀ z, P2 z ∈ B ∧ ∀ w ∈ B, ⟪z - P2 z, w - P2 z⟫ ≤ 0)
+    (x0 : E) (s : DykState E) (hinv : s.x + s.p + s.q = x0)
+    (hfix : (dykSweep P1 P2 s).x = s.x ∧ (dykSweep P1 P2 s).p = s.p ∧ (dykSweep P1 P2 s).q = s.q) :
+    s.x ∈ A ∧ s.x ∈ B ∧ ∀ z, z ∈ A → z ∈ B → ⟪x0 - s.x, z - s.x⟫ ≤ 0 := by
+  obtain ⟨hx, hp, _⟩ := hfix
+  simp only [dykSweep] at hx hp
+  have hy : P1 (s.x + s.p) = s.x := by
+    have h := sub_eq_iff_eq_add.1 hp
+    have h' : s.p + s.x = s.p + P1 (s.x + s.p) := by rw [add_comm s.p s.x]; exact h
+    exact (add_left_cancel h').symm
+  have hx2 : P2 (s.x + s.q) = s.x := by rw [hy] at hx; exact hx
+  have hA := h1 (s.x + s.p)
+  have hB := h2 (s.x + s.q)
+  rw [hy] at hA
+  rw [hx2] at hB
+  refine ⟨hA.1, hB.1, fun z hzA hzB => ?_⟩
+  have e : x0 - s.x = (s.x + s.p - s.x) + (s.x + s.q - s.x) := by rw [← hinv]; abel
+  rw [e, inner_add_left]
+  have := hA.2 z hzA
+  have := hB.2 z hzB
+  linarith
+
+/-- C10.dyk_zero_value_is_stationary: a vanishing stopping value (`‖Δp‖² + ‖Δq‖² = 0`) means the sweep left `p`, `q` and `x`
+unchanged — so a run that stops with value `0` returns the nearest physical point (`dyk_stationary_is_nearest`). -/
+theorem dyk_zero_value_is_stationary (P1 P2 : E → E) (s : DykState E)
+    (h0 : brValue (fun v : E => ‖v‖ ^ 2) s (dykSweep P1 P2 s) = 0) :
+    (dykSweep P1 P2 s).x = s.x ∧ (dykSweep P1 P2 s).p = s.p ∧ (dykSweep P1 P2 s).q = s.q := by
+  unfold brValue at h0
+  have hp0 : ‖s.p - (dykSweep P1 P2 s).p‖ ^ 2 = 0 := by
+    have := sq_nonneg ‖s.q - (dykSweep P1 P2 s).q‖; nlinarith [sq_nonneg ‖s.p - (dykSweep P1 P2 s).p‖]
+  have hq0 : ‖s.q - (dykSweep P1 P2 s).q‖ ^ 2 = 0 := by
+    have := sq_nonneg ‖s.p - (dykSweep P1 P2 s).p‖; nlinarith [sq_nonneg ‖s.q - (dykSweep P1 P2 s).q‖]
+  have hp : (dykSweep P1 P2 s).p = s.p := by
+    have := norm_eq_zero.1 (pow_eq_zero_iff (n := 2) (by norm_num) |>.1 hp0)
+    exact (sub_eq_zero.1 this).symm
+  have hq : (dykSweep P1 P2 s).q = s.q := by
+    have := norm_eq_zero.1 (pow_eq_zero_iff (n := 2) (by norm_num) |>.1 hq0)
+    exact (sub_eq_zero.1 this).symm
+  refine ⟨?_, hp, hq⟩
+  have hsum : (dykSweep P1 P2 s).x + (dykSweep P1 P2 s).p + (dykSweep P1 P2 s).q = s.x + s.p + s.q := by
+    simp only [dykSweep]; abel
+  rw [hp, hq] at hsum
+  exact add_right_cancel (add_right_cancel hsum)
+
+end nearest
+
+/-- a stationary state with non-zero increments: `E = ℝ`, `A = {1}` (`P1 ≡ 1`), `B = [0, ∞)`, `x₀ = 3`: state `x = 1, p = 2, q = 0` -/
+example : (dykSweep (fun _ : Rat => 1) (fun z => max z 0) ⟨1, 2, 0, 1⟩).x = 1 ∧
+    (dykSweep (fun _ : Rat => 1) (fun z => max z 0) ⟨1, 2, 0, 1⟩).p = 2 ∧
+    (dykSweep (fun _ : Rat => 1) (fun z => max z 0) ⟨1, 2, 0, 1⟩).q = 0 := by
+  decide +kernel
 
 /-- the hypothesis `hstop` of `dyk_stop_accuracy` is satisfiable: on `ℚ` with the sets `{1}` (projection `fun _ => 1`) and
 `[0, ∞)` (projection `max · 0`), start `3`: the loop ends on its criterion, not on the limit of 5 sweeps. -/
